@@ -1133,6 +1133,8 @@ func (bg *BondgoCheck) Visit(n ast.Node) ast.Visitor {
 					} else {
 						// This is the default case
 						default_point = bgsw.CountLines(bgsw.CurrentRoutine)
+						// (a fallthrough of the previous clause jumps here through the clause's index)
+						starting_points[i] = default_point
 					}
 
 					ast.Walk(bgsw, clause)
